@@ -42,6 +42,12 @@ def run_consistent(case):
     try:
         P = _impl["OP"]([{_impl_elem(am, x) for x in g} for g in case["P"]])
         cons = _impl["Consensus"]([_impl["Ranking"](am.norm_ranking(case["c"]))])
+        for prev in case.get("prev", []):
+            # history of the SAME partition object: earlier queries with other consensus rankings
+            try:
+                core.with_alarm(5, P.consistent_with, _impl["Consensus"]([_impl["Ranking"](am.norm_ranking(prev))]))
+            except Exception:
+                pass
         r = core.with_alarm(5, P.consistent_with, cons)
         rec["out"] = "true" if r is True else "false" if r is False else "error:NotBool"
     except core.Timeout:
